@@ -3297,10 +3297,11 @@ impl Zeroconf {
                     continue;
                 }
 
-                add_answer_of_service(
+                add_answer_of_service_as(
                     &mut out,
                     &msg,
                     question.entry_name(),
+                    dns_registry.resolve_name(service.get_hostname()),
                     service,
                     qtype,
                     intf_addrs,
@@ -3951,10 +3952,28 @@ impl Zeroconf {
 }
 
 /// Adds one or more answers of a service for incoming msg and RR entry name.
+#[cfg(test)]
 fn add_answer_of_service(
     out: &mut DnsOutgoing,
     msg: &DnsIncoming,
     entry_name: &str,
+    service: &ServiceInfo,
+    qtype: RRType,
+    intf_addrs: Vec<IpAddr>,
+) {
+    let hostname = service.get_hostname();
+    add_answer_of_service_as(out, msg, entry_name, hostname, service, qtype, intf_addrs);
+}
+
+/// Adds one or more answers of a service for incoming msg and RR entry name.
+///
+/// `hostname` is the host name the service is currently announced with,
+/// i.e. after a possible rename due to conflict resolution.
+fn add_answer_of_service_as(
+    out: &mut DnsOutgoing,
+    msg: &DnsIncoming,
+    entry_name: &str,
+    hostname: &str,
     service: &ServiceInfo,
     qtype: RRType,
     intf_addrs: Vec<IpAddr>,
@@ -3969,7 +3988,7 @@ fn add_answer_of_service(
                 service.get_priority(),
                 service.get_weight(),
                 service.get_port(),
-                service.get_hostname().to_string(),
+                hostname.to_string(),
             ),
         );
     }
@@ -3989,7 +4008,7 @@ fn add_answer_of_service(
     if qtype == RRType::SRV {
         for address in intf_addrs {
             out.add_additional_answer(DnsAddress::new(
-                service.get_hostname(),
+                hostname,
                 ip_address_rr_type(&address),
                 CLASS_IN | CLASS_CACHE_FLUSH,
                 service.get_host_ttl(),
